@@ -119,6 +119,18 @@ UNITS = {
                  "Proofs/KmerProofs.v", "Proofs/GraphProofs.v", "Proofs/GenerateProofs.v", "Proofs/GeneratedProofs.v"],
         "theorems": {},
     },
+    "repair": {
+        "enabled": False,                      # switched on once every proof file of the unit is complete
+        "functions": translate_minipy.REPAIR_FUNCS,
+        "generate": lambda repo, d: translate_minipy.generate_repair(repo, os.path.join(d, "RepairGen.v")),
+        "refuse": translate_minipy.Refuse,
+        "generated": "RepairGen.v",
+        "stages": [["RepairRepr.v"], ["PathMatchingGenProofs.v", "RepairDnaGenProofs.v"], ["RepairKnotGenProofs.v"]],
+        "deps": ["Py.v", "Kmer.v", "Convert.v", "Coder.v", "Repair.v", "Spec.v", "RepairSpec.v", "MiniPyR.v", "MiniPyREnc.v",
+                 "Proofs/MiniPyRLemmas.v", "Proofs/RepairProofs.v", "Proofs/Repair8Proofs.v", "Proofs/Repair8MultiProofs.v",
+                 "Proofs/TerminationProofs.v"],
+        "theorems": {},
+    },
     "biofilter": {
         "functions": translate_minipy.BIOFILTER_FUNCS,
         "generate": lambda repo, d: translate_minipy.generate_biofilter(repo, os.path.join(d, "BiofilterGen.v")),
@@ -265,9 +277,9 @@ def run_unit(name, repo, use_cache=True, keep=None):
                     out["failed_file"] = f
                     return out
         out.update(proved=True, closed=closed, seconds=round(time.time() - t0, 1))
-        if name in ("operation", "biofilter", "coder", "graph", "coding"):
+        if name in ("operation", "biofilter", "coder", "graph", "coding", "repair"):
             sem = {"operation": semantics_check, "biofilter": semantics_check_filter, "coder": semantics_check_coder,
-                   "graph": semantics_check_graph, "coding": semantics_check_coding}[name](
+                   "graph": semantics_check_graph, "coding": semantics_check_coding, "repair": semantics_check_repair}[name](
                 work, repo, int(os.environ.get("VERIF_SEED", "0") or 0))
             out["minipy_semantics_vs_cpython"] = sem
             if sem.get("error") or sem.get("disagreements") or not sem.get("compared"):
@@ -749,6 +761,114 @@ def semantics_check_coding(work, repo, seed=0, n=90):
         res["threshold1"] += int(args[2] == 1)
         if g != w and len(res["disagreements"]) < 5:
             res["disagreements"].append({"function": f, "args": args, "minipy": g[:40], "cpython": w[:40]})
+    return res
+
+
+def semantics_check_repair(work, repo, seed=0, n=120):
+    """path_matching / repair_dna: MiniPyR interpreter (vm_compute) against CPython under three hash seeds (the order in which a
+    set of strings is listed depends on the seed; the results must not)"""
+    import random
+    rng = random.Random(1000003 * seed + 79)
+    NUC = "ACGT"
+    cases = []
+    for _ in range(n):
+        k = rng.choice([1, 2, 2, 2, 3])
+        nn = 4 ** k
+        keep = rng.choice([0.5, 0.7, 0.9, 1.0])
+        rows = [[(4 * v + j) % nn if rng.random() < keep else -1 for j in range(4)] for v in range(nn)]
+        live = [v for v in range(nn) if any(x >= 0 for x in rows[v])] or [0]
+        v0 = rng.choice(live)
+        w, v = "", v0
+        for _s in range(rng.randint(k, 6 * k + 4)):
+            js = [j for j in range(4) if rows[v][j] >= 0]
+            if not js:
+                break
+            j = rng.choice(js)
+            w += NUC[j]
+            v = rows[v][j]
+        sdna = w
+        for _e in range(rng.choice([0, 1, 1, 2, 3])):
+            if not sdna:
+                break
+            i = rng.randrange(len(sdna))
+            e = rng.choice("SID")
+            sdna = sdna[:i] + (rng.choice(NUC) + sdna[i + 1:] if e == "S" else sdna[i + 1:] if e == "D" else rng.choice(NUC) + sdna[i:])
+        if rng.random() < 0.08:
+            sdna += "N"
+        if rng.random() < 0.5:
+            occ = rng.randint(-1, len(sdna))
+            cases.append(("path_matching", [sdna[: 2 * k + 1], {"arr2": rows}, rng.randrange(-1, nn + 1), occ, rng.random() < 0.6, None]))
+        else:
+            vt = rng.choice([None, None, "AC", "T", "GGA"])
+            cases.append(("repair_dna", [sdna, {"arr2": rows}, v0, k, vt, rng.random() < 0.6, rng.choice([0, 1, 10, 1000])]))
+    lines = ["From Coq Require Import String.", "From DSW Require Import MiniPyR MiniPyREnc Repair Coder Convert.",
+             "From DSWGen Require Import RepairGen.", "Open Scope Z_scope.",
+             "Definition ce_r (fuel : nat) : string -> list val -> res val := fun f args =>",
+             '  if String.eqb f "dna_to_number" then match args with [VStr s; VBool false] => match dna_to_number_int s with Ok n => Ret (VInt n) | Raise e => Exn e | _ => Fuel end | _ => Stuck end',
+             '  else if String.eqb f "set_vt" then match args with [VStr s; VInt n] => match set_vt s n with Ok r => Ret (VStr r) | Raise e => Exn e | _ => Fuel end | _ => Stuck end',
+             "  else call_in repair_module fuel f args."]
+    for f, args in cases:
+        lines.append('Eval vm_compute in enc_res (run_fun (ce_r 400) 400 %s_def [%s]).' % (f, "; ".join(_coq_aval(a) for a in args)))
+    open(os.path.join(work, "SemCasesRepair.v"), "w").write("\n".join(lines) + "\n")
+    rc, log = _compile(work, "SemCasesRepair.v")
+    if rc != 0:
+        return {"cases": len(cases), "compared": 0, "error": log[-600:]}
+    got = [[int(x) for x in re.findall(r"-?\d+", blk.split(": list Z")[0])] for blk in log.split("= ")[1:]]
+    if len(got) != len(cases):
+        return {"cases": len(cases), "compared": 0, "error": "parsed %d answers for %d cases" % (len(got), len(cases))}
+    prog = ("import sys, json\nsys.path.insert(0, %r)\nimport numpy as np\nimport dsw\n"
+            "EX = {ValueError: 1, IndexError: 2, TypeError: 3, OverflowError: 4, KeyError: 5}\n"
+            "def conv(a):\n"
+            "    if isinstance(a, dict): return np.array(a['arr2'], dtype=int).reshape((-1, 4))\n"
+            "    return a\n"
+            "def enc(v):\n"
+            "    if isinstance(v, (bool, np.bool_)): return [5, int(v)]\n"
+            "    if isinstance(v, (int, np.integer)): return [0, int(v)]\n"
+            "    if isinstance(v, str): return [1, len(v)] + [ord(c) for c in v]\n"
+            "    if isinstance(v, (list, tuple)):\n"
+            "        out = [2 if isinstance(v, list) else 3, len(v)]\n"
+            "        for x in v: out += enc(x)\n"
+            "        return out\n"
+            "    return [4] if v is None else [99]\n"
+            "import signal\n"
+            "class Slow(BaseException): pass\n"
+            "def alarm(*a): raise Slow()\n"
+            "signal.signal(signal.SIGALRM, alarm)\n"
+            "out = []\n"
+            "for f, a in json.load(sys.stdin):\n"
+            "    try:\n"
+            "        signal.alarm(5)\n"
+            "        r = getattr(dsw, f)(*[conv(x) for x in a])\n"
+            "        signal.alarm(0)\n"
+            "        out.append([0] + enc(r))\n"
+            "    except Slow:\n"
+            "        out.append([2])\n"
+            "    except Exception as e:\n"
+            "        signal.alarm(0)\n"
+            "        out.append([1, EX.get(type(e), 6)])\n"
+            "print(json.dumps(out))\n" % (repo,))
+    res = {"cases": len(cases), "compared": 0, "stuck": 0, "fuel": 0, "disagreements": [], "per_function": {}, "raised": 0,
+           "hash_seeds": [0, 1, 2]}
+    wants = []
+    for hs in res["hash_seeds"]:
+        p = subprocess.run(["/venv/bin/python", "-c", prog], input=json.dumps(cases), stdout=subprocess.PIPE, stderr=subprocess.PIPE,
+                           universal_newlines=True, env=dict(os.environ, PYTHONHASHSEED=str(hs)))
+        if p.returncode != 0:
+            return {"cases": len(cases), "compared": 0, "error": p.stderr[-600:]}
+        wants.append(json.loads(p.stdout))
+    for i, ((f, args), g) in enumerate(zip(cases, got)):
+        if g[:1] == [3]:
+            res["stuck"] += 1
+            continue
+        if g[:1] == [2] or wants[0][i] == [2]:
+            res["fuel"] += 1
+            continue
+        res["compared"] += 1
+        res["raised"] += int(wants[0][i][:1] == [1])
+        res["per_function"][f] = res["per_function"].get(f, 0) + 1
+        for hs, w in zip(res["hash_seeds"], wants):
+            if g != w[i] and len(res["disagreements"]) < 5:
+                res["disagreements"].append({"function": f, "args": args, "hash_seed": hs, "minipy": g[:40], "cpython": w[i][:40]})
     return res
 
 
